@@ -181,6 +181,11 @@ def sign_flows(repo: Repo) -> RuleRun:
                 if any(isinstance(x, ast.Name) and x.id in aliases for x in ast.walk(n.value)) and not _under_even(n.value, aliases):
                     aliases.add(n.targets[0].id)
     odd_uses = 0
+    # 'angle = abs(angle)' (the parameter re-bound to an even function of itself): every later use has lost the sign
+    kill_line = None
+    for n in ast.walk(fn.node):
+        if isinstance(n, ast.Assign) and any(isinstance(t, ast.Name) and t.id == "angle" for t in n.targets) and _under_even(n.value, {"angle"}):
+            kill_line = n.lineno if kill_line is None else min(kill_line, n.lineno)
     for n in ast.walk(fn.node):
         if isinstance(n, ast.Name) and n.id == "angle" and isinstance(n.ctx, ast.Load):
             # skip the validation guard: an `if` whose body only raises
@@ -200,6 +205,8 @@ def sign_flows(repo: Repo) -> RuleRun:
                 p = q
             if in_guard:
                 continue
+            if kill_line is not None and n.lineno > kill_line:
+                even = True
             uses.append((n, even))
             if not even:
                 odd_uses += 1
